@@ -64,6 +64,13 @@ def reduced_alphabet():
         a.append({'op': 'replace', 'pt': pt, 'mode': 2, 'q': 0, 'perm': 1,
                   'loc': [0, 0, 0], 'g': 0, 'p': P, 'neg': 0})
         a.append({'op': 'unfold', 'pt': pt, 'q': 0})
+    # blocks sharing a cycle, then unfolded together
+    sub2 = [{'loc': [0, 0], 'k': 0, 'g': 0, 'p': P},
+            {'loc': [0, 0], 'k': 0, 'g': 1, 'p': P}]
+    for loc in ([0, 0, 0], [1, 0, 0]):
+        a.append({'op': 'append_circuit', 'loc': loc, 'k': 0, 'sub': sub2,
+                  'as_gate': 1, 'move': 0})
+    a.append({'op': 'batch_unfold', 'pts': [0, 1]})
     a.append({'op': 'pop_cycle', 'cyc': 0})
     a.append({'op': 'renumber', 'perm': [1, 0, 0]})
     a.append({'op': 'renumber', 'perm': [2, 0, 0]})
